@@ -2,10 +2,16 @@
 
 // Contracts for expand_message_xmd (RFC 9380 5.3.1), comment-only. The hash object is the interface value
 // returned by sha256.New (an opaque call); its methods follow the assumed contracts of hash.Hash stated here
-// (digest size 32, block size 64, Write never fails, Sum appends one digest to a fresh slice). What is hashed is
-// not modelled: the clauses are totality (every slice, index and make operation is a discharged obligation),
-// the length of the output, and "an error is returned exactly for inadmissible parameters"
-// (ell = ceil(len_in_bytes / 32) > 255, len(DST) > 255, negative length).
+// (digest size 32, block size 64, Write never fails, Sum appends one digest to a fresh slice). The clauses are
+// totality (every slice, index and make operation is a discharged obligation), the length of the output, "an error
+// is returned exactly for inadmissible parameters" (ell = ceil(len_in_bytes / 32) > 255, len(DST) > 255, negative
+// length), and WHAT IS HASHED, block by block, as RFC 9380 5.3.1 prescribes - checked before every Write by a ghost
+// automaton (block number, number of writes since the last Reset):
+//   b_0 = H(Z_pad(64 zero bytes) || msg || I2OSP(len_in_bytes, 2) || 0 || DST || I2OSP(len(DST), 1))
+//   b_1 = H(b_0 || 1 || DST || I2OSP(len(DST), 1))
+//   b_i = H(strxor(b_0, b_(i-1)) || i || DST || I2OSP(len(DST), 1))   for i = 2 .. ell
+// every digest is taken after a Reset and exactly these writes, and max(ell, 1) + 1 digests are taken. How the
+// digests are assembled into the output (the copies into res) is not stated.
 
 package hash
 
@@ -41,12 +47,36 @@ package hash
 //@ func ExpandMsgXmd
 //@ option opaque New
 //@ option fresh-loop-slices
+//@ ghost blk = 0
+//@ ghost w = 0
+//@ ghost reset = false
+//@ cut after call Reset #*
+//@ + ghost w = 0
+//@ + ghost reset = true
+//@ cut before call Write #*
+//@ + invariant[after-reset] reset && 0 <= w && w <= ite(blk == 0, 4, 3)
+//@ + invariant[b0-zpad] blk == 0 && w == 0 ==> len(callarg1) == 64 && forall(j, 0, 64, callarg1[j] == 0)
+//@ + invariant[b0-msg] blk == 0 && w == 1 ==> same(callarg1, msg)
+//@ + invariant[b0-length] blk == 0 && w == 2 ==> len(callarg1) == 3 && callarg1[0] == (lenInBytes / 256) % 256 && callarg1[1] == lenInBytes % 256 && callarg1[2] == 0
+//@ + invariant[b1-chain] blk == 1 && w == 0 ==> same(callarg1, b0)
+//@ + invariant[bi-chain] blk >= 2 && w == 0 ==> len(callarg1) == 32 && forall(j, 0, 32, callarg1[j] == bxor8(b0[j], b1[j]))
+//@ + invariant[block-index] blk >= 1 && w == 1 ==> len(callarg1) == 1 && callarg1[0] == blk
+//@ + invariant[dst] w == ite(blk == 0, 3, 2) ==> same(callarg1, dst)
+//@ + invariant[dst-length] w == ite(blk == 0, 4, 3) ==> len(callarg1) == 1 && callarg1[0] == len(dst)
+//@ cut after call Write #*
+//@ + ghost w = w + 1
+//@ cut before call Sum #*
+//@ + invariant[block-complete] reset && w == ite(blk == 0, 5, 4) && isnil(callarg1)
+//@ cut after call Sum #*
+//@ + ghost blk = blk + 1
+//@ + ghost reset = false
 //@ loop 0
-//@ + invariant[blocks] 2 <= i && i <= max(ell, 1) + 1 && ell == (lenInBytes + 31) / 32 && 0 <= lenInBytes && lenInBytes <= 8160 && len(res) == lenInBytes && len(b0) == 32 && len(b1) == 32 && len(dst) <= 255
+//@ + invariant[blocks] 2 <= i && i <= max(ell, 1) + 1 && ell == (lenInBytes + 31) / 32 && 0 <= lenInBytes && lenInBytes <= 8160 && len(res) == lenInBytes && len(b0) == 32 && len(b1) == 32 && len(dst) <= 255 && blk == i && !reset
 //@ loop 1
-//@ + invariant[xor] 0 <= j && j <= 32 && len(strxor) == 32 && len(b0) == 32 && len(b1) == 32
+//@ + invariant[xor] 0 <= j && j <= 32 && len(strxor) == 32 && len(b0) == 32 && len(b1) == 32 && forall(jj, 0, j, strxor[jj] == bxor8(b0[jj], b1[jj])) && blk == i && reset && w == 0
 //@ ensures[length] isnil(result1) ==> len(result0) == lenInBytes
 //@ ensures[accepted] isnil(result1) ==> 0 <= lenInBytes && lenInBytes <= 8160 && len(dst) <= 255
 //@ ensures[refused] !isnil(result1) ==> lenInBytes < 0 || lenInBytes > 8160 || len(dst) > 255
+//@ ensures[digests] isnil(result1) ==> blk == max(ell, 1) + 1
 //@ modifies nothing
 //@ end
